@@ -38,12 +38,15 @@ fn dk_hash(d: &Option<DecodedKey>) -> u64 {
     }
 }
 
-/// The mirror: three real stage objects wired by hand. The event stage is a
-/// second `Keyboard` used only through its event-side methods (EventDecoder has
-/// no modifier getter); its framing and scancode stages are never touched.
+/// The mirror: three real stage objects wired by hand. EventDecoder has no
+/// modifier getter, so next to it a second `Keyboard` is fed the same events and
+/// asked for nothing but get_modifiers(); its other stages are never touched.
 struct Mirror {
     ps2: Ps2Decoder,
     set: DynSet,
+    /// the event stage proper: results of process_keyevent and the Ctrl mode
+    ed: EventDecoder<DynLayout>,
+    /// modifier state only (fed events, never asked anything else)
     ev: Keyboard<DynLayout, DynSet>,
 }
 
@@ -214,7 +217,12 @@ impl Scenario for Full {
         let lay = cfg.layout as usize % NLAYOUT_OBJS;
         let mut h = LogHash::new();
         let mut kb = Keyboard::new(DynSet::new(cfg.set), DynLayout::object(lay), hc(cfg.map));
-        let mut mir = Mirror { ps2: Ps2Decoder::new(), set: DynSet::new(cfg.set), ev: Keyboard::new(DynSet::new(cfg.set), DynLayout::object(lay), hc(cfg.map)) };
+        let mut mir = Mirror {
+            ps2: Ps2Decoder::new(),
+            set: DynSet::new(cfg.set),
+            ed: EventDecoder::new(DynLayout::object(lay), hc(cfg.map)),
+            ev: Keyboard::new(DynSet::new(cfg.set), DynLayout::object(lay), hc(cfg.map)),
+        };
         // coverage-only models
         let mut fr = RefFramer::new();
         let mut m2 = RefSet2::new();
@@ -425,8 +433,9 @@ impl Scenario for Full {
                     }
                     env.cov.hit("bits_pending_x_prefix_ctx_at_event_stage_call", pend * 6 + ctx);
                     let dk = kb.process_keyevent(ev.clone());
-                    let dm = mir.ev.process_keyevent(ev.clone());
-                    env.cov.api_calls += 2;
+                    let dm = mir.ed.process_keyevent(ev.clone());
+                    let _ = mir.ev.process_keyevent(ev.clone());
+                    env.cov.api_calls += 3;
                     env.cov.evaluations += 1;
                     h.mix(dk_hash(&dk));
                     if dk != dm {
@@ -439,7 +448,7 @@ impl Scenario for Full {
                         env.cov.probe("setctrl_between_two_bits_of_a_frame");
                     }
                     kb.set_ctrl_handling(hc(map));
-                    mir.ev.set_ctrl_handling(hc(map));
+                    mir.ed.set_ctrl_handling(hc(map));
                     env.cov.api_calls += 2;
                     consumer_log.push((Consumer::SetCtrl(map), None));
                 }
@@ -469,7 +478,7 @@ impl Scenario for Full {
                     mods_show(mir.ev.get_modifiers())
                 );
             }
-            if kb.get_ctrl_handling() != mir.ev.get_ctrl_handling() {
+            if kb.get_ctrl_handling() != mir.ed.get_ctrl_handling() {
                 fail!('ops, i, "mirror-of-three-stages", "after {}: get_ctrl_handling() differs from the separately driven event stage", op_show(&top.op));
             }
             if env.verbose {
@@ -632,7 +641,7 @@ impl Scenario for Full {
     fn assumptions(&self) -> Vec<String> {
         vec![
             "every mutating method takes &mut self and the crate has no interior mutability, so the schedule space of any concurrent use is the set of interleavings of whole API calls; the simulator's scheduler draws from exactly that space".into(),
-            "the mirror's event stage is a second Keyboard used only through process_keyevent/set_ctrl_handling/get_* (EventDecoder has no modifier getter)".into(),
+            "the mirror's event stage is a real EventDecoder (results, Ctrl mode) plus an event-only Keyboard asked only for get_modifiers (EventDecoder has no modifier getter)".into(),
             "sampled, not enumerated".into(),
         ]
     }
